@@ -65,6 +65,34 @@ theorem idString_length (e : SEntry) (h1 : e.ms < two64) (h2 : e.seq < two64) : 
   simp [List.length_append]
   omega
 
+theorem parseStreamId_idText (p : Nat × Nat) (h1 : p.1 < two64) (h2 : p.2 < two64) :
+    parseStreamId (idText p) = some p := by
+  unfold parseStreamId idText
+  rw [splitDash_digits _ _ (natDigits_all p.1)]
+  simp [parseU64Fast_natDigits _ h1, parseU64Fast_natDigits _ h2]
+
+theorem idText_length (p : Nat × Nat) (h1 : p.1 < two64) (h2 : p.2 < two64) : (idText p).length < two32 := by
+  have a := natDigits_length_u64 p.1 h1
+  have b := natDigits_length_u64 p.2 h2
+  unfold idText two32
+  simp [List.length_append]
+  omega
+
+/-- an entry ID is never the last-ID marker string (it starts with a digit) -/
+theorem idString_ne_lastIdMarker (e : SEntry) : idString e ≠ lastIdMarker := by
+  intro h
+  have hall : (idString e).all (fun b => isDigit b || b == 45) = true := by
+    unfold idString
+    have a := natDigits_all e.ms
+    have b := natDigits_all e.seq
+    simp only [List.all_append, List.all_cons, Bool.and_eq_true, List.all_eq_true] at a b ⊢
+    refine ⟨fun x hx => by simp [a x hx], by simp, fun x hx => by simp [b x hx]⟩
+  rw [h] at hall
+  revert hall
+  decide
+
+theorem parseStreamId_lastIdMarker : parseStreamId lastIdMarker = none := by decide
+
 /-! ### finishing a pair: `expire` on the key just created -/
 
 theorem putEntry_put_key (db : Db) (k : Bytes) (v v' : Value) (dl dl' : Option Nat) :
@@ -86,13 +114,16 @@ theorem expireOpt_put (db : Db) (k : Bytes) (v : Value) (dl : Option Nat) (hd : 
 def sAllocs (e : SEntry) : List Nat :=
   (idString e).length :: (natDigits e.fields.length).length :: pairLengths e.fields
 
+/-- the four strings of the last-ID pseudo entry -/
+def lastIdAllocs (es : List SEntry) : List Nat := [lastIdMarker.length, 1, (idText (lastId es)).length, 0]
+
 def valueAllocs : Value → List Nat
   | .str b => [b.length]
   | .list xs => lengths xs
   | .set xs => lengths xs
   | .hash fs => pairLengths fs
   | .zset zs => zLengths zs
-  | .stream es => marker.length :: es.flatMap sAllocs
+  | .stream es => marker.length :: (lastIdAllocs es ++ es.flatMap sAllocs)
 
 /-! ### per type -/
 
@@ -395,6 +426,123 @@ theorem streamLoop_enc (db : Db) (k : Bytes) (remaining : Nat) (hrem : remaining
       rw [this]
       simp [sAllocs, List.append_assoc]
 
+/-- the components of a well-formed stream's greatest present ID fit 64 bits -/
+theorem lastId_lt (es : List SEntry) (h : es.all sentryWF = true) : (lastId es).1 < two64 ∧ (lastId es).2 < two64 := by
+  induction es with
+  | nil => simp [lastId, two64]
+  | cons e es ih =>
+    simp only [List.all_cons, Bool.and_eq_true] at h
+    cases es with
+    | nil =>
+      have he := h.1
+      simp [sentryWF] at he
+      simp only [lastId]
+      exact ⟨he.1.1.1.1, he.1.1.1.2⟩
+    | cons e' es' => simpa [lastId] using ih h.2
+
+/-- the first round of the loop on the last-ID pseudo entry: four strings read, nothing added -/
+theorem streamLoop_lastId (db : Db) (k : Bytes) (remaining : Nat) (hrem : remaining < two32) (h4 : 4 ≤ remaining)
+    (es0 : List SEntry) (hp : (lastId es0).1 < two64 ∧ (lastId es0).2 < two64) (bs : Bytes) (f : Nat) :
+    streamLoop true k remaining (f + 1) 0 db (encLastId es0 ++ bs) =
+      (streamLoop true k remaining f 4 db bs).pre (lastIdAllocs es0) := by
+  unfold two32 at hrem
+  have c1 : 0 < remaining := by omega
+  have c2 : ¬ (0 + 2) % two64 ≥ remaining := by unfold two64; omega
+  have hml : lastIdMarker.length < two32 := by decide
+  have h1l : ([49] : Bytes).length < two32 := by decide
+  have h0l : ([] : Bytes).length < two32 := by decide
+  have hidl := idText_length (lastId es0) hp.1 hp.2
+  have hparse : parseU64 [49] = some 1 := by decide
+  have c3 : ¬ 0 + 2 + 1 * 2 > remaining := by omega
+  have c4 : (0 + 2 + 2 * 1) % two64 = 4 := by decide
+  conv => lhs; unfold streamLoop
+  simp only [c1, not_true, if_false, c2, encLastId, List.append_assoc]
+  rw [readString_encString _ hml]
+  simp only [Res.bind_ok]
+  rw [readString_encString _ h1l]
+  simp only [Res.bind_ok, hparse, Option.getD_some, c3, if_false]
+  simp only [readPairs, List.append_assoc]
+  rw [readString_encString _ hidl]
+  simp only [Res.bind_ok]
+  rw [readString_encString _ h0l]
+  simp [parseStreamId_lastIdMarker, c4, lastIdAllocs, Res.map]
+
+/-- … and `saved_last_id` is set by it -/
+theorem streamSaved_lastId (remaining : Nat) (hrem : remaining < two32) (h4 : 4 ≤ remaining)
+    (es0 : List SEntry) (hp : (lastId es0).1 < two64 ∧ (lastId es0).2 < two64) (bs : Bytes) (f : Nat) (s : Bool) :
+    streamSaved remaining (f + 1) 0 s (encLastId es0 ++ bs) = streamSaved remaining f 4 true bs := by
+  unfold two32 at hrem
+  have c1 : 0 < remaining := by omega
+  have c2 : ¬ (0 + 2) % two64 ≥ remaining := by unfold two64; omega
+  have hml : lastIdMarker.length < two32 := by decide
+  have h1l : ([49] : Bytes).length < two32 := by decide
+  have h0l : ([] : Bytes).length < two32 := by decide
+  have hidl := idText_length (lastId es0) hp.1 hp.2
+  have hparse : parseU64 [49] = some 1 := by decide
+  have c3 : ¬ 0 + 2 + 1 * 2 > remaining := by omega
+  have c4 : (0 + 2 + 2 * 1) % two64 = 4 := by decide
+  conv => lhs; unfold streamSaved
+  simp only [c1, not_true, if_false, c2, encLastId, List.append_assoc]
+  rw [readString_encString _ hml]
+  simp only []
+  rw [readString_encString _ h1l]
+  simp only [hparse, Option.getD_some, c3, if_false]
+  simp only [readPairs, List.append_assoc]
+  rw [readString_encString _ hidl]
+  simp only [Res.bind_ok]
+  rw [readString_encString _ h0l]
+  simp [parseStreamId_idText _ hp.1 hp.2, c4, Res.map]
+
+/-- the entries that follow do not change it -/
+theorem streamSaved_enc (remaining : Nat) (hrem : remaining < two32) (rest : Bytes) (es : List SEntry) :
+    ∀ (idx fuel : Nat), idx + streamItems es = remaining → es.all sentryWF = true →
+      streamSaved remaining fuel idx true (encSEntries es ++ rest) = true := by
+  induction es with
+  | nil =>
+    intro idx fuel hidx _
+    cases fuel with
+    | zero => simp [streamSaved]
+    | succ f =>
+      simp only [streamItems, Nat.add_zero] at hidx
+      have : ¬ idx < remaining := by omega
+      simp [streamSaved, this]
+  | cons e es ih =>
+    intro idx fuel hidx hwf
+    cases fuel with
+    | zero => simp [streamSaved]
+    | succ f =>
+      simp only [List.all_cons, Bool.and_eq_true] at hwf
+      obtain ⟨he, hes⟩ := hwf
+      simp [sentryWF, pairOk, strOk] at he
+      obtain ⟨⟨⟨⟨hms, hseq⟩, hne⟩, hnd⟩, hall⟩ := he
+      rw [streamItems_ge] at hidx
+      have hpos : 0 < e.fields.length := by
+        cases hfl : e.fields with
+        | nil => exact absurd hfl hne
+        | cons a b => simp
+      unfold two32 at hrem
+      have c1 : idx < remaining := by omega
+      have c2 : ¬ (idx + 2) % two64 ≥ remaining := by unfold two64; omega
+      have hcnt : (natDigits e.fields.length).length < two32 := by
+        have := natDigits_length_u64 e.fields.length (by unfold two64; omega)
+        unfold two32; omega
+      have hparse : parseU64 (natDigits e.fields.length) = some e.fields.length :=
+        parseU64_natDigits _ (by omega)
+      have c3 : ¬ idx + 2 + e.fields.length * 2 > remaining := by omega
+      have c4 : (idx + 2 + 2 * e.fields.length) % two64 = idx + 2 + 2 * e.fields.length := by
+        unfold two64; omega
+      conv => lhs; unfold streamSaved
+      simp only [c1, not_true, if_false, c2, encSEntries, List.flatMap_cons, encSEntry, List.append_assoc]
+      rw [readString_encString _ (idString_length e hms hseq)]
+      simp only []
+      rw [readString_encString _ hcnt]
+      simp only [hparse, Option.getD_some, c3, if_false]
+      rw [readPairs_encPairs e.fields (fun p hp => hall p.1 p.2 hp)]
+      simp only [idString_ne_lastIdMarker e, if_false, c4]
+      have := ih (idx + 2 + 2 * e.fields.length) f (by omega) hes
+      simp only [encSEntries] at this
+      exact this
+
 theorem loadTyped_stream (fix : Fix) (db : Db) (k : Bytes) (es : List SEntry) (dl : Option Nat) (hd : dlOk dl = true)
     (hk : strOk k = true) (hv : valueWF (.stream es) = true)
     (hs : isEmptyStream (.stream es) = false ∨ fix.keepEmptyStream = true)
@@ -405,39 +553,53 @@ theorem loadTyped_stream (fix : Fix) (db : Db) (k : Bytes) (es : List SEntry) (d
   obtain ⟨⟨hlen, hinc⟩, hall⟩ := hv
   have hnone := (findKey_none_iff db k).mpr hf
   have hmlen : marker.length < two32 := by decide
-  have hrem : streamItems es < two32 := by unfold two32 at hlen ⊢; omega
+  have hrem : 4 + streamItems es < two32 := by unfold two32 at hlen ⊢; omega
+  have hall' : es.all sentryWF = true := by
+    simp only [List.all_eq_true]
+    exact fun x hx => hall x hx
+  have hp := lastId_lt es hall'
   unfold loadTyped
   simp only [encValue, List.append_assoc]
   rw [readString_encString k hk]
   simp only [Res.bind_ok, Nat.reduceEqDiff, if_false, if_true, false_or]
   rw [readLen_encLen _ hlen]
-  have hge : 1 + streamItems es ≥ 1 := by omega
+  have hge : 1 + 4 + streamItems es ≥ 1 := by omega
+  have hsub : 1 + 4 + streamItems es - 1 = 4 + streamItems es := by omega
+  have hne : ¬ (4 + streamItems es = 0) := by omega
   simp only [Res.bind_ok, hge, if_true]
   rw [readString_encString marker hmlen]
-  simp only [Res.bind_ok, if_true, Nat.add_sub_cancel_left]
+  simp only [Res.bind_ok, if_true, hsub, hne, and_false, if_false, lift_ok]
+  rw [streamLoop_lastId db k (4 + streamItems es) hrem (by omega) es hp (encSEntries es ++ rest)]
+  rw [streamSaved_lastId (4 + streamItems es) hrem (by omega) es hp (encSEntries es ++ rest)]
+  rw [streamSaved_enc (4 + streamItems es) hrem rest es 4 _ (by omega) hall']
+  have hloop := streamLoop_enc db k (4 + streamItems es) hrem hf rest es [] 4
+    ((encLastId es ++ (encSEntries es ++ rest)).length)
+    (by omega)
+    (by
+      have h1 := length_le_encSEntries es
+      have h2 : 0 < (encLastId es).length := by simp [encLastId, encString, List.length_append]; omega
+      simp only [List.length_append]; omega)
+    (by simpa [lastId] using hinc) hall'
+  simp only [List.nil_append, streamState] at hloop
+  rw [hloop]
   cases es with
   | nil =>
     have hk' : fix.keepEmptyStream = true := by
       cases hs with
       | inl h => simp [isEmptyStream] at h
       | inr h => exact h
-    simp only [hk', streamItems, true_and, if_true, setValue, dlOk, Bool.not_true, Bool.false_eq_true, if_false, lift_ok, Res.bind_ok, encSEntries,
-      List.flatMap_nil, List.nil_append, streamLoop, Nat.lt_irrefl, not_false_eq_true, expireOpt_put _ _ _ _ hd]
-    simp [putEntry_fresh db ⟨k, .stream [], dl⟩ hf, valueAllocs]
+    simp only [streamState, hk', true_and, if_true, Res.pre_ok, Res.bind_ok, ensureStream, Bool.not_true, Bool.false_eq_true, if_false,
+      hnone, lift_ok, expireOpt_put _ _ _ _ hd]
+    simp [putEntry_fresh db ⟨k, .stream [], dl⟩ hf, valueAllocs, lastIdAllocs]
   | cons e es =>
-    have hne : ¬ (streamItems (e :: es) = 0) := by rw [streamItems_ge]; omega
-    simp only [hne, and_false, if_false, lift_ok, Res.bind_ok]
-    have hall' : (e :: es).all sentryWF = true := by
-      simp only [List.all_eq_true]
-      exact fun x hx => hall x hx
-    have := streamLoop_enc db k (streamItems (e :: es)) hrem hf rest (e :: es) [] 0
-      ((encSEntries (e :: es) ++ rest).length + 1)
-      (by omega) (by have := length_le_encSEntries (e :: es); simp only [List.length_append]; omega)
-      (by simpa [lastId] using hinc) hall'
-    simp only [streamState] at this
-    rw [this]
-    simp only [Res.bind_ok, List.nil_append, expireOpt_put _ _ _ _ hd, lift_ok]
-    simp [putEntry_fresh db ⟨k, .stream (e :: es), dl⟩ hf, valueAllocs]
+    have hfind := findKey_putEntry_same db ⟨k, .stream (e :: es), none⟩
+    simp only at hfind
+    by_cases hk' : fix.keepEmptyStream = true
+    · simp only [streamState, hk', true_and, if_true, Res.pre_ok, Res.bind_ok, ensureStream, Bool.not_true, Bool.false_eq_true, if_false,
+        hfind, lift_ok, expireOpt_put _ _ _ _ hd]
+      simp [putEntry_fresh db ⟨k, .stream (e :: es), dl⟩ hf, valueAllocs, lastIdAllocs]
+    · simp only [streamState, hk', false_and, if_false, Res.pre_ok, Res.bind_ok, lift_ok, expireOpt_put _ _ _ _ hd]
+      simp [expireOpt_put _ _ _ _ hd, putEntry_fresh db ⟨k, .stream (e :: es), dl⟩ hf, valueAllocs, lastIdAllocs]
 
 /-! ### all types at once -/
 
